@@ -5,6 +5,8 @@ type nat =
 | O
 | S of nat
 
+val option_map : ('a1 -> 'a2) -> 'a1 option -> 'a2 option
+
 type ('a, 'b) sum =
 | Inl of 'a
 | Inr of 'b
@@ -25,6 +27,8 @@ type comparison =
 val compOpp : comparison -> comparison
 
 val add : nat -> nat -> nat
+
+val mul : nat -> nat -> nat
 
 val sub : nat -> nat -> nat
 
@@ -1927,6 +1931,360 @@ val svd_const : q mat3 -> q mat3 -> q mat3 -> (q mat3 * q vec3) * q mat3
 val eig_const : q list -> q mat4 -> q mat4 -> q list * q mat4
 
 val run_geom : string -> v list -> v option
+
+type path = string
+
+type cell0 =
+| CInt of z
+| CReal of z * positive
+| CText of string
+
+type table1 = { t_cols : string list; t_rows : cell0 list list }
+
+type dbimage = table1 option
+
+type content =
+| FText of string
+| FDb of dbimage
+| FJournal
+
+type fsys = path -> content option
+
+val fs_set : fsys -> path -> content option -> fsys
+
+val jpath : path -> path
+
+type conn = { c_path : path option; c_view : dbimage; c_intx : bool }
+
+type conns = nat -> conn option
+
+val conn_set : conns -> nat -> conn option -> conns
+
+type world = { w_fs : fsys; w_conns : conns }
+
+type stmt_kind =
+| KSelect
+| KDdl
+| KDml
+
+type act =
+| AExists of path
+| AOpenTrunc of path
+| AWriteChunk of path * string
+| AClose of path
+| AReadAll of path
+| ARemove of path
+| ARename of path * path
+| AMkTemp of path
+| AConnect of nat * path option
+| AExec of nat * stmt_kind * (dbimage -> dbimage)
+| ACommit of nat
+| ACloseConn of nat
+
+type resp =
+| RUnit
+| RBool of bool
+| RText of string
+| RImg of dbimage
+| RErr of string
+
+val is_some : 'a1 option -> bool
+
+val fstep : fsys -> act -> fsys * resp
+
+val step : world -> act -> world * resp
+
+val crash : world -> fsys
+
+type outcome =
+| ONoFile
+| ONoTable
+| OTable of table1
+| ONotDb
+
+val observe : fsys -> path -> outcome
+
+val recover : fsys -> path -> fsys
+
+type 'a prog =
+| Ret of 'a
+| Do of act * (resp -> 'a prog)
+
+val bindp : 'a1 prog -> ('a1 -> 'a2 prog) -> 'a2 prog
+
+val bindr : 'a1 res prog -> ('a1 -> 'a2 res prog) -> 'a2 res prog
+
+val seq_acts : act list -> unit prog
+
+val resp_true : resp -> bool
+
+val resp_text : resp -> string res
+
+val resp_unit : resp -> unit res
+
+val run_n : nat -> world -> 'a1 prog -> world * 'a1 prog
+
+val trace_n : nat -> world -> 'a1 prog -> (act * resp) list
+
+val frun_n : nat -> fsys -> 'a1 prog -> fsys * 'a1 prog
+
+val ftrace_n : nat -> fsys -> 'a1 prog -> (act * resp) list
+
+val result_of : 'a1 prog -> 'a1 option
+
+val replace_nth : nat -> 'a1 -> 'a1 list -> 'a1 list
+
+val sched_step : nat -> (fsys * 'a1 prog list) -> fsys * 'a1 prog list
+
+val run_sched : nat list -> (fsys * 'a1 prog list) -> fsys * 'a1 prog list
+
+val sched_trace : nat list -> (fsys * 'a1 prog list) -> (nat * act) list
+
+val cell_eqb : cell0 -> cell0 -> bool
+
+val list_eqb : ('a1 -> 'a1 -> bool) -> 'a1 list -> 'a1 list -> bool
+
+val table_eqb : table1 -> table1 -> bool
+
+val index_of2 : string -> string list -> nat option
+
+val set_nth1 : nat -> 'a1 -> 'a1 list -> 'a1 list
+
+val upd_cell : table1 -> z -> string -> cell0 -> table1
+
+val upd_cells : table1 -> z -> string list -> cell0 list -> table1
+
+val on_table : (table1 -> table1) -> dbimage -> dbimage
+
+val atom_cols : string list
+
+val ddl_create : dbimage -> dbimage
+
+val dml_insert : cell0 list list -> dbimage -> dbimage
+
+val upd_column : string -> cell0 list -> z list option -> table1 -> table1
+
+val selected_rows : z list option -> table1 -> z list
+
+val update_shape_ok : string list -> cell0 list list -> bool
+
+val update_count_ok : cell0 list list -> z list option -> table1 -> bool
+
+val upd_rows :
+  string list -> cell0 list list -> z list option -> table1 -> table1
+
+val add_col : string -> cell0 -> table1 -> table1
+
+val ascii_leb : ascii -> ascii -> bool
+
+val string_leb : string -> string -> bool
+
+val chain_col : nat
+
+val cell_text : cell0 -> string
+
+val chains_of : cell0 list list -> string list
+
+val uppercase_letter : nat -> string
+
+val fix_chain_rows : cell0 list list -> cell0 list list
+
+type modify =
+| MUpdCol of string * cell0 list * z list option
+| MUpdate of string list * cell0 list list * z list option
+| MAddCol of string * string * cell0
+
+type sstep =
+| SModify of modify
+| SCommit
+
+type scenario = { sc_name : path; sc_pdb : path option;
+                  sc_rows : cell0 list list; sc_fix : bool;
+                  sc_steps : sstep list; sc_keep : bool }
+
+val sel : nat -> act
+
+val sels : nat -> nat -> act list
+
+val created_rows : scenario -> cell0 list list
+
+val acts_create : scenario -> act list
+
+val acts_modify : modify -> table1 -> act list
+
+val apply_modify : modify -> table1 -> table1
+
+val apply_step : sstep -> table1 -> table1
+
+val acts_step : sstep -> table1 -> act list
+
+val acts_close : scenario -> act list
+
+val groups_steps : sstep list -> table1 -> act list list
+
+val table2 : scenario -> table1
+
+val c20_tail_groups : scenario -> act list list
+
+val c20_prelude : bool -> scenario -> act list
+
+val c20_groups : bool -> scenario -> act list list
+
+val c20_flat : bool -> scenario -> act list
+
+val c20_script : scenario -> unit prog
+
+val group_of : act list list -> nat -> nat
+
+val world0 : fsys -> world
+
+val concat_str : string list -> string
+
+val read_pdb : path -> string res prog
+
+val new_db : path -> string res prog
+
+val write_lines : path -> string list -> unit res prog -> unit res prog
+
+val write_zone : path -> path list -> string list -> unit res prog
+
+val write_zone_in_place : path -> string list -> unit res prog
+
+val read_zone : path -> string res prog
+
+val acquire_zone :
+  path -> path option -> path list -> string list -> (string * string list)
+  res prog
+
+val acquire_zone_in_place :
+  path -> path -> string list -> (string * string list) res prog
+
+val exportpdb : path -> string list -> unit res prog
+
+val basename_aux : string -> string -> string
+
+val basename : string -> string
+
+val lstrip_chars : string -> string -> string
+
+val rstrip_chars : string -> string -> string
+
+val superposed_name : path -> path -> path
+
+val aligned_name : path -> path
+
+type routine =
+| RLrmsdFast of path option
+| RIrmsdFast of path option
+| RIrmsdSql of path option * path option
+| RLrmsdSql of path option
+| RFnatFast
+| RFnatSql
+| RContacts
+| RSuperpose of bool
+| RAlign of bool
+
+type call = { cl_decoy : path; cl_ref : path; cl_routine : routine;
+              cl_tmps : path list; cl_zone_lines : string list;
+              cl_out1 : string list; cl_out2 : string list }
+
+type obs = string list * string list
+
+val rd : string res prog -> obs -> (obs -> obs res prog) -> obs res prog
+
+val lrmsd_tail : path -> path -> (string * string list) -> obs res prog
+
+val irmsd_tail : path -> path -> (string * string list) -> obs res prog
+
+val script : call -> obs res prog
+
+val script_in_place : call -> obs res prog
+
+val requested_outputs : call -> path list
+
+val inputs_of : call -> path list
+
+val transients : call -> path list
+
+val fuel : call -> nat
+
+type sstate = { s_tab : table1; s_dirty : bool; s_last : table1 option }
+
+val modifies_data : modify -> table1 -> bool
+
+val spec_step0 : sstep -> sstate -> sstate
+
+val spec_created : scenario -> sstate
+
+val spec_run : sstep list -> sstate -> sstate
+
+val spec_after : scenario -> nat -> sstate
+
+val final_table : scenario -> table1
+
+val outcome_eqb : outcome -> outcome -> bool
+
+val is_nil0 : 'a1 list -> bool
+
+val no_atomsb : outcome -> bool
+
+val holds_committedb : table1 option -> outcome -> bool
+
+val allowedb : outcome -> scenario -> nat -> outcome -> bool
+
+val allowed_literalb : outcome -> scenario -> nat -> outcome -> bool
+
+val d_opt : (v -> 'a1) -> v -> 'a1 option
+
+val d_cell : v -> cell0
+
+val d_row : v -> cell0 list
+
+val d_rows : v -> cell0 list list
+
+val d_strs : v -> string list
+
+val d_zs : v -> z list
+
+val d_step : v -> sstep
+
+val d_scenario : v -> scenario
+
+val d_table : v -> v -> table1
+
+val d_outcome : v -> outcome
+
+val d_fs : v -> fsys
+
+val d_routine : v -> routine
+
+val d_call : v -> call
+
+val e_cell : cell0 -> v
+
+val e_outcome : outcome -> v
+
+val e_kind : stmt_kind -> string
+
+val e_act : act -> v
+
+val e_content : content option -> v
+
+val e_res_strs : obs res -> v
+
+val c20_run : scenario -> fsys -> path list -> v
+
+val c16_run : call -> fsys -> path list -> v
+
+val c16_sched : call list -> fsys -> nat list -> path list -> v
+
+val basis_of : obs res prog -> string list res option
+
+val basis_eqb : string list res option -> string list res option -> bool
+
+val c16_sched_same : bool -> call list -> fsys -> nat list -> v
+
+val run_fs : string -> v list -> v option
 
 val vresS : string res -> v
 
